@@ -100,6 +100,8 @@ def run_case(ctx, g, rng):
             al = call(c.expand_all, curie)
             bl = call(c.expand_pair_all, p, i)
             call(c.is_curie, curie)
+            call(c.parse_curie, curie)
+            call(c.standardize_prefix, p)
             if curie.find(d) != len(p):
                 # e.g. prefix "GO:" with delimiter "::": the string form legitimately splits earlier
                 S.counters["wl:string-form-splits-earlier"] += 1
